@@ -836,6 +836,41 @@ Theorem width_class : forall s,
 Proof.
   intro s. split; [exact uc_isdw_table|]. split; [exact uc_iszw_table|]. split; [apply uc_wid_table | apply uc_isbell_table].
 Qed.
+(* membership in a range table cannot change between two consecutive bounds of the table *)
+Lemma mem_const tab : forall c c', c <= c' ->
+  (forall x, In x (bounds_of tab) -> ~ (c < x <= c')) -> mem tab c = mem tab c'.
+Proof.
+  induction tab as [|[a b] tab IH]; intros c c' L H; [reflexivity|].
+  unfold mem in *. cbn [existsb].
+  rewrite (IH c c' L) by (intros x Hx; apply H; cbn [bounds_of flat_map]; apply in_or_app; right; exact Hx).
+  f_equal.
+  assert (Ha : ~ (c < a <= c')) by (apply H; cbn; auto).
+  assert (Hb : ~ (c < b + 1 <= c')) by (apply H; cbn; auto).
+  destruct (a <=? c) eqn:E1, (c <=? b) eqn:E2, (a <=? c') eqn:E3, (c' <=? b) eqn:E4; try reflexivity;
+    rewrite ?Z.leb_le, ?Z.leb_gt in *; lia.
+Qed.
+
+Theorem width_class_const : forall c c', c <= c' ->
+  (forall x, In x class_bounds -> ~ (c < x <= c')) ->
+  uc_isdw c = uc_isdw c' /\ uc_iszw c = uc_iszw c' /\ tfind c bchars = tfind c' bchars /\ uc_acomb c = uc_acomb c' /\
+  forall s s', Z.of_N (uc_code s) = c -> Z.of_N (uc_code s') = c' -> plain_ascii (hd0 s) = plain_ascii (hd0 s') ->
+    uc_wid s = uc_wid s' /\ uc_isbell s = uc_isbell s'.
+Proof.
+  intros c c' L H.
+  assert (D : mem dwchars c = mem dwchars c') by (apply mem_const; [exact L|intros x Hx; apply H; unfold class_bounds; rewrite !in_app_iff; auto]).
+  assert (Zw : mem zwchars c = mem zwchars c') by (apply mem_const; [exact L|intros x Hx; apply H; unfold class_bounds; rewrite !in_app_iff; auto]).
+  assert (B : mem bchars c = mem bchars c') by (apply mem_const; [exact L|intros x Hx; apply H; unfold class_bounds; rewrite !in_app_iff; auto]).
+  assert (A : mem acomb_ranges c = mem acomb_ranges c') by (apply mem_const; [exact L|intros x Hx; apply H; unfold class_bounds; rewrite !in_app_iff; auto]).
+  destruct tables_sorted as [_ [_ [SB _]]].
+  split; [rewrite !uc_isdw_table; exact D|].
+  split; [rewrite !uc_iszw_table; exact Zw|].
+  split; [rewrite !tfind_is_membership by exact SB; rewrite B; reflexivity|].
+  split; [exact A|].
+  intros s s' Hs Hs' Hp. split.
+  - rewrite !uc_wid_table. cbv zeta. rewrite Hs, Hs', D, Zw. reflexivity.
+  - rewrite !uc_isbell_table. cbv zeta. rewrite Hs, Hs', Hp, Zw, B. reflexivity.
+Qed.
+
 Theorem cwid_class : forall s p,
   (0 <= p -> hd0 s = 9%N -> (p + ren_cwid s p) mod 8 = 0 /\ 1 <= ren_cwid s p <= 8) /\
   (hd0 s <> 9%N ->
